@@ -70,6 +70,10 @@ def extra_closures(natives: List[str]) -> List[dict]:
     out.append(dict(tag="matlab-prefix-in-name", cl=dict(files=[dict(path="root.yaml", imports=[], items=[
         ("msg", "XMT_Y", 700, F(("a", "int32", None))), ("mid", "AMID_B", 33), ("hid", "CHID_D", 4)])],
         auto_pad=True, import_coredefs=False), coq=False))
+    # a name that BEGINS with the section prefix: still stripped by generate_field (kept by 689365a), open finding
+    out.append(dict(tag="matlab-leading-prefix-in-name", cl=dict(files=[dict(path="root.yaml", imports=[], items=[
+        ("msg", "MT_Y", 701, F(("a", "int32", None))), ("mid", "MID_B", 34), ("hid", "HID_D", 5)])],
+        auto_pad=True, import_coredefs=False), coq=False))
     return out
 
 
